@@ -88,6 +88,10 @@ class _Sub:
     def rule(self, *a):
         pass
 
+    @property
+    def obligations(self):
+        return self.ck.obligations    # (keys carry this property's id and rule: callers that look for their own earlier verdicts find none)
+
     def count(self, name, n=1):
         self.ck.count(name, n)
 
